@@ -1,7 +1,7 @@
 (* Lockstep of encoder and decoder over the sample-interleaved (three component) scan. *)
 From V Require Import Common.Base JpegLS.JlsParams JpegLS.JlsGolomb JpegLS.JlsRun JpegLS.JlsModel.
 From V Require Import JpegLS.JlsProofsParams JpegLS.JlsProofsGolomb JpegLS.JlsProofsSample
-                      JpegLS.JlsProofsRun JpegLS.JlsProofsNear0 JpegLS.JlsProofsInterrupt JpegLS.JlsProofsLine.
+                      JpegLS.JlsProofsRun JpegLS.JlsProofsNear0 JpegLS.JlsProofsInterrupt JpegLS.JlsProofsLine JpegLS.JlsProofsWriter.
 
 Definition in_range3 (P : Z) (v : px3) : Prop :=
   in_range P (p3_0 v) /\ in_range P (p3_1 v) /\ in_range P (p3_2 v).
@@ -73,7 +73,7 @@ Section Line3.
     jst_ok st -> in_range P x ->
     regular_enc_i pk p st (context_qs p a b c d) a b c x = Some (ops, st1, v) ->
     regular_dec_i pk p st (context_qs p a b c d) a b c (ops_bits ops ++ rest) = Some (v, st1, rest) /\
-    jst_ok st1 /\ near_close near x v /\ in_range P v.
+    jst_ok st1 /\ near_close near x v /\ in_range P v /\ Forall wop_ok ops.
   Proof.
     intros st a b c d x rest ops st1 v Hst Hx H.
     unfold regular_enc_i in H. unfold regular_dec_i.
@@ -82,8 +82,8 @@ Section Line3.
                 (context_qs p a b c d) a b c x) as [[ops' c'] stored] eqn:E.
     inversion H; subst ops' st1 stored.
     destruct (regular_lockstep P near pk HP Hnear Hpk true _ _ a b c x rest ops c' v (fun _ => eq_refl) Hx E)
-      as (Hd & Hc & Hr).
-    fold p in Hd. rewrite Hd. split; [reflexivity|]. split; [apply jst_ok_set_ctx; assumption|]. split; assumption.
+      as (Hd & Hc & Hr & Hwf).
+    fold p in Hd. rewrite Hd. split; [reflexivity|]. split; [apply jst_ok_set_ctx; assumption|]. split; [assumption|]. split; assumption.
   Qed.
 
   Lemma line3_lockstep : forall fuel st x pw cur inp ops_rev st' cur' ops_rev',
@@ -92,18 +92,18 @@ Section Line3.
     enc_line3 fuel pk p w y plf pplf st x pw cur inp ops_rev = Ok (st', cur', ops_rev') ->
     exists ops recs,
       ops_rev' = rev ops ++ ops_rev /\ cur' = rev recs ++ cur /\
-      Forall2 (near_close3 near) inp recs /\ Forall (in_range3 P) recs /\ jst_ok st' /\
+      Forall2 (near_close3 near) inp recs /\ Forall (in_range3 P) recs /\ jst_ok st' /\ Forall wop_ok ops /\
       forall rest, dec_line3 fuel pk p w y plf pplf st x pw cur (ops_bits ops ++ rest) = Ok (st', cur', rest).
   Proof.
     pose proof (pow2_bounds P HP) as Hpb. pose proof (z3_in_range P HP) as Hz3.
     induction fuel as [|f IH]; intros st x pw cur inp ops_rev st' cur' ops_rev' Hst Hx0 Hxw Hinp Hcur Hpw Henc.
     - destruct inp as [|xs inp']; cbn [enc_line3] in Henc; [|discriminate].
       inversion Henc; subst st' cur' ops_rev'. exists [], []. cbn [rev app ops_bits].
-      split; [reflexivity|]. split; [reflexivity|]. split; [constructor|]. split; [constructor|]. split; [exact Hst|].
+      split; [reflexivity|]. split; [reflexivity|]. split; [constructor|]. split; [constructor|]. split; [exact Hst|]. split; [constructor|].
       intros rest. cbn [dec_line3 length] in *. destruct (Z.geb_spec x w); [reflexivity|lia].
     - destruct inp as [|xs inp']; cbn [enc_line3] in Henc.
       + inversion Henc; subst st' cur' ops_rev'. exists [], []. cbn [rev app ops_bits].
-        split; [reflexivity|]. split; [reflexivity|]. split; [constructor|]. split; [constructor|]. split; [exact Hst|].
+        split; [reflexivity|]. split; [reflexivity|]. split; [constructor|]. split; [constructor|]. split; [exact Hst|]. split; [constructor|].
         intros rest. cbn [dec_line3 length] in *. destruct (Z.geb_spec x w); [reflexivity|lia].
       + cbn [length] in Hxw. inversion Hinp as [|? ? Hxs Hinp']. subst x0 l.
         destruct Hxs as (Hxs0 & Hxs1 & Hxs2).
@@ -138,7 +138,7 @@ Section Line3.
             - apply Z.eqb_eq. lia.
             - apply Z.eqb_neq. lia. }
           destruct (run_roundtrip (S (length run)) (Z.of_nat (length run)) remaining (js_ri st) [] Hri
-                      ltac:(unfold remaining; lia) Hrem ltac:(lia)) as (rops & ri' & Hrl & Hri' & _).
+                      ltac:(unfold remaining; lia) Hrem ltac:(lia)) as (rops & ri' & Hrl & Hri' & _ & Hwfr).
           rewrite Heol in Hrl. rewrite Hrl in Henc.
           assert (HrunR : Forall (in_range3 P) (repeat lv (length run))) by (apply Forall_repeat; assumption).
           assert (Hst1 : jst_ok (set_ri st ri')) by (apply jst_ok_set_ri; assumption).
@@ -146,7 +146,7 @@ Section Line3.
                                      Some (Z.of_nat (length run), ri', R)).
           { intros R.
             destruct (run_roundtrip (S (length run)) (Z.of_nat (length run)) remaining (js_ri st) R Hri
-                        ltac:(unfold remaining; lia) Hrem ltac:(lia)) as (rops2 & ri2 & Hrl2 & _ & Hd2).
+                        ltac:(unfold remaining; lia) Hrem ltac:(lia)) as (rops2 & ri2 & Hrl2 & _ & Hd2 & _).
             rewrite Heol in Hrl2. rewrite Hrl in Hrl2. inversion Hrl2; subst. exact Hd2. }
           assert (Hrunclose : Forall2 (near_close3 near) run (repeat lv (length run))).
           { clear - Hrun. induction run as [|v t IHt]; cbn [length repeat]; constructor.
@@ -158,7 +158,7 @@ Section Line3.
              split; [rewrite rev_append_rev'; reflexivity|].
              split; [rewrite push_n3_repeat, rev_repeat; reflexivity|].
              split; [rewrite Hsplit, app_nil_r; exact Hrunclose|].
-             split; [assumption|]. split; [assumption|].
+             split; [assumption|]. split; [assumption|]. split; [assumption|].
              intros rest. cbn [dec_line3]. destruct (Z.geb_spec x w); [lia|].
              fold left. rewrite En0, En1, En2. unfold qs_of. cbn [fst snd]. fold q0 q1 q2. rewrite Eq.
              fold lv remaining. rewrite Hdecrl. rewrite Nat2Z.id.
@@ -181,11 +181,11 @@ Section Line3.
              destruct (interrupt_enc_i pk p s0 (p3_1 xi) (p3_1 lv) ib1) as [[o1 s1] r1] eqn:E1.
              destruct (interrupt_enc_i pk p s1 (p3_2 xi) (p3_2 lv) ib2) as [[o2 s2] r2] eqn:E2.
              destruct (interrupt_i_roundtrip P near pk HP Hnear Hpk _ _ _ _ [] _ _ _ Hst1 Hib0 Hxi0 E0)
-               as (_ & Hs0 & Hri0 & _ & Hc0 & Hr0).
+               as (_ & Hs0 & Hri0 & _ & Hc0 & Hr0 & Hw0).
              destruct (interrupt_i_roundtrip P near pk HP Hnear Hpk _ _ _ _ [] _ _ _ Hs0 Hib1 Hxi1 E1)
-               as (_ & Hs1 & Hri1 & _ & Hc1 & Hr1).
+               as (_ & Hs1 & Hri1 & _ & Hc1 & Hr1 & Hw1).
              destruct (interrupt_i_roundtrip P near pk HP Hnear Hpk _ _ _ _ [] _ _ _ Hs1 Hib2 Hxi2 E2)
-               as (_ & Hs2 & Hri2 & _ & Hc2 & Hr2).
+               as (_ & Hs2 & Hri2 & _ & Hc2 & Hr2 & Hw2).
              assert (Hst3 : jst_ok (set_ri s2 (dec_run_index (js_ri s2)))).
              { apply jst_ok_set_ri; [assumption|]. apply dec_run_index_range. destruct Hs2; assumption. }
              cbn [length] in Hlen.
@@ -196,7 +196,7 @@ Section Line3.
              assert (Hx1 : 0 <= x + Z.of_nat (length run) + 1) by lia.
              assert (Hlen2 : x + Z.of_nat (length run) + 1 + Z.of_nat (length rest') = w) by lia.
              destruct (IH _ _ _ _ _ _ _ _ _ Hst3 Hx1 Hlen2 Hrest' Hcur2 Hpw2 Henc)
-               as (ops2 & recs2 & Hops & Hcur' & Hrel & Hrng & Hst' & Hdec).
+               as (ops2 & recs2 & Hops & Hcur' & Hrel & Hrng & Hst' & Hwf2 & Hdec).
              exists (rops ++ o0 ++ o1 ++ o2 ++ ops2), (repeat lv (length run) ++ (r0, r1, r2) :: recs2).
              split.
              { rewrite Hops, !rev_append_rev', !rev_app_distr, <- !app_assoc. reflexivity. }
@@ -208,6 +208,7 @@ Section Line3.
              split.
              { apply Forall_app. split; [assumption|]. constructor; [unfold in_range3; cbn; auto | assumption]. }
              split; [assumption|].
+             split; [repeat (apply Forall_app; split; try assumption)|].
              intros rest. cbn [dec_line3]. destruct (Z.geb_spec x w); [lia|].
              fold left. rewrite En0, En1, En2. unfold qs_of. cbn [fst snd]. fold q0 q1 q2. rewrite Eq.
              fold lv remaining.
@@ -227,22 +228,23 @@ Section Line3.
           destruct (regular_enc_i pk p st q0 ra0 rb0 rc0 (p3_0 xs)) as [[[o0 s0] v0]|] eqn:E0; [|discriminate].
           destruct (regular_enc_i pk p s0 q1 ra1 rb1 rc1 (p3_1 xs)) as [[[o1 s1] v1]|] eqn:E1; [|discriminate].
           destruct (regular_enc_i pk p s1 q2 ra2 rb2 rc2 (p3_2 xs)) as [[[o2 s2] v2]|] eqn:E2; [|discriminate].
-          destruct (regular_i_lockstep _ _ _ _ _ _ [] _ _ _ Hst Hxs0 E0) as (_ & Hs0 & Hc0 & Hr0).
-          destruct (regular_i_lockstep _ _ _ _ _ _ [] _ _ _ Hs0 Hxs1 E1) as (_ & Hs1 & Hc1 & Hr1).
-          destruct (regular_i_lockstep _ _ _ _ _ _ [] _ _ _ Hs1 Hxs2 E2) as (_ & Hs2 & Hc2 & Hr2).
+          destruct (regular_i_lockstep _ _ _ _ _ _ [] _ _ _ Hst Hxs0 E0) as (_ & Hs0 & Hc0 & Hr0 & Hw0).
+          destruct (regular_i_lockstep _ _ _ _ _ _ [] _ _ _ Hs0 Hxs1 E1) as (_ & Hs1 & Hc1 & Hr1 & Hw1).
+          destruct (regular_i_lockstep _ _ _ _ _ _ [] _ _ _ Hs1 Hxs2 E2) as (_ & Hs2 & Hc2 & Hr2 & Hw2).
           assert (Hcur2 : Forall (in_range3 P) ((v0, v1, v2) :: cur)).
           { constructor; [unfold in_range3; cbn; auto | assumption]. }
           assert (Hpw2 : Forall (in_range3 P) (tl pw)) by (destruct pw; [constructor | inversion Hpw; assumption]).
           assert (Hx1 : 0 <= x + 1) by lia.
           assert (Hlen2 : x + 1 + Z.of_nat (length inp') = w) by lia.
           destruct (IH _ _ _ _ _ _ _ _ _ Hs2 Hx1 Hlen2 Hinp' Hcur2 Hpw2 Henc)
-            as (ops2 & recs2 & Hops & Hcur' & Hrel & Hrng & Hst' & Hdec).
+            as (ops2 & recs2 & Hops & Hcur' & Hrel & Hrng & Hst' & Hwf2 & Hdec).
           exists (o0 ++ o1 ++ o2 ++ ops2), ((v0, v1, v2) :: recs2).
           split.
           { rewrite Hops, !rev_append_rev', !rev_app_distr, <- !app_assoc. reflexivity. }
           split; [rewrite Hcur'; cbn [rev]; rewrite <- app_assoc; reflexivity|].
           split; [constructor; [unfold near_close3; cbn; auto | assumption]|].
           split; [constructor; [unfold in_range3; cbn; auto | assumption]|]. split; [assumption|].
+          split; [repeat (apply Forall_app; split; try assumption)|].
           intros rest. cbn [dec_line3]. destruct (Z.geb_spec x w); [lia|].
           fold left. rewrite En0, En1, En2. unfold qs_of. cbn [fst snd]. fold q0 q1 q2. rewrite Eq.
           rewrite !ops_bits_app, <- !app_assoc.
@@ -274,7 +276,7 @@ Section Lines3.
     exists ops lines,
       ops_rev' = rev ops ++ ops_rev /\
       Forall2 (near_close3 near) pix (concat lines) /\ Forall (in_range3 P) (concat lines) /\
-      length lines = hfuel /\ Forall (fun l => length l = wn) lines /\
+      length lines = hfuel /\ Forall (fun l => length l = wn) lines /\ Forall wop_ok ops /\
       forall rest, dec_lines3 hfuel pk p w wn y plf pplf st prev (ops_bits ops ++ rest) = Ok lines.
   Proof.
     pose proof (z3_in_range P HP) as Hz3.
@@ -290,7 +292,7 @@ Section Lines3.
       destruct (line3_lockstep P near pk HP Hnear Hpk w y plf pplf Hplf (S wn) st 0 (z3 :: prev) []
                   (firstn wn pix) ops_rev st1 cur_rev ops1 Hst ltac:(lia) ltac:(rewrite Hf; lia)
                   (Forall_firstn _ _ wn pix Hpix) ltac:(constructor) Hpw Eline)
-        as (ops_a & recs & Hops1 & Hcur & Hrel & Hrng & Hst1 & Hdec).
+        as (ops_a & recs & Hops1 & Hcur & Hrel & Hrng & Hst1 & Hwfa & Hdec).
       rewrite app_nil_r in Hcur.
       assert (Hcurl : frev cur_rev = recs) by (rewrite frev_rev, Hcur, rev_involutive; reflexivity).
       rewrite Hcurl in Henc.
@@ -300,13 +302,14 @@ Section Lines3.
       { unfold line_first3. destruct recs; [exact Hz3 | inversion Hrng; assumption]. }
       destruct (IH (y + 1) (line_first3 recs) plf st1 recs (skipn wn pix) ops1 ops_rev' Hst1 Hfirst Hrng
                   (Forall_skipn _ _ wn pix Hpix) ltac:(rewrite Hs, Hlen; cbn; lia) Henc)
-        as (ops_b & lines & Hops & Hrel2 & Hrng2 & Hll & Hlw & Hdec2).
+        as (ops_b & lines & Hops & Hrel2 & Hrng2 & Hll & Hlw & Hwfb & Hdec2).
       exists (ops_a ++ ops_b), (recs :: lines).
       split; [rewrite Hops, Hops1, rev_app_distr, app_assoc; reflexivity|].
       split.
       { cbn [concat]. rewrite <- (firstn_skipn wn pix). apply Forall2_app; assumption. }
       split; [cbn [concat]; apply Forall_app; split; assumption|].
       split; [cbn [length]; lia|]. split; [constructor; assumption|].
+      split; [apply Forall_app; split; assumption|].
       intros rest. cbn [dec_lines3]. rewrite ops_bits_app, <- app_assoc.
       fold p in Hdec. rewrite (Hdec (ops_bits ops_b ++ rest)). rewrite Hcurl. rewrite Hdec2. reflexivity.
   Qed.
